@@ -56,6 +56,7 @@ REG = {
         dict(name='c04::g1_compressed', tier='quick', t=800, stubbing=True),
         dict(name='c04::g2_uncompressed_flags', tier='quick', t=800, stubbing=True),
         dict(name='c04::g2_compressed_flags', tier='quick', t=800, stubbing=True),
+        dict(name='c04::g2_compressed_checked_b0', tier='quick', t=800, stubbing=True),
         dict(name='c04::g2_uncompressed', tier='thorough', t=5400, stubbing=True, mem=24),
         dict(name='c04::g2_uncompressed_reencode', tier='thorough', t=5400, stubbing=True, mem=24),
         dict(name='c04::g2_uncompressed_checked', tier='thorough', t=5400, stubbing=True, mem=24),
@@ -125,6 +126,9 @@ REG = {
         dict(name='c19::fr_de_31', tier='quick', t=1200, stubbing=True),
         dict(name='c19::fr_de_32', tier='quick', t=1200, stubbing=True),
         dict(name='c19::fr_de_33', tier='quick', t=1200, stubbing=True),
+        dict(name='c19::fq12_de_0', tier='quick', t=1200, stubbing=True),
+        dict(name='c19::fq12_de_48', tier='quick', t=1800, stubbing=True),
+        dict(name='c19::fq12_de_528', tier='quick', t=3600, stubbing=True),
         dict(name='c19::fq12_de_575', tier='thorough', t=3600, stubbing=True, mem=24),
         dict(name='c19::fq12_de_576', tier='thorough', t=5400, stubbing=True, mem=24),
         dict(name='c19::fq12_de_577', tier='quick', t=5400, stubbing=True, mem=14),
